@@ -56,6 +56,7 @@ type Call struct {
 
 // Fault describes an injected failure at one call index.
 type Fault struct {
+	Evict   string // "set" / "pod": when the fault fires, the set (the pod the call is about) also vanishes from the informer cache
 	K       int    // position among the plan calls of one reconcile (1-based, list calls not counted); 0 if List is set
 	Kind    string // ServerError | Conflict | NotFound | AlreadyExists | Timeout
 	Applied bool   // the request took effect although an error is reported
@@ -76,6 +77,7 @@ type API struct {
 	nl       int // number of list calls since ResetLog
 	faults   []Fault
 	before   func(k int, verb, res, name string)
+	onEvict  func(what, name string)
 	inHook   bool
 	quiet    bool // do not log (used by harness-side accesses through clients)
 	countAll bool // fault positions count list calls too (drivers whose subject is not the controller)
@@ -260,6 +262,9 @@ func (m *API) React(a core.Action) (bool, runtime.Object, error) {
 		}
 	}
 	if f, ok := m.faultFor(c.Verb == "list" && !m.countAll); ok {
+		if f.Evict != "" && m.onEvict != nil {
+			m.onEvict(f.Evict, c.Name) // the informer drops the object from its cache at this very moment
+		}
 		if f.Die && !f.Applied {
 			c.Result = "Died"
 			panic(crashSentinel{c.Idx})
